@@ -228,6 +228,45 @@ pub fn visit(ctx: &BoardCtx, p: &Pos) {
     }
 }
 
+thread_local! {
+    /// another board living on this thread (half-move clock 33), with its snapshot
+    static OTHER_BOARD: std::cell::RefCell<Option<(Bitboard, Snap)>> = std::cell::RefCell::new(None);
+}
+
+/// makes a capture (clock-resetting) on the thread's other board and leaves it outstanding
+fn other_board_make() -> Option<Move> {
+    OTHER_BOARD.with(|o| {
+        let mut o = o.borrow_mut();
+        if o.is_none() {
+            let b = Bitboard::from_fen_string("4k3/8/8/3p4/4P3/8/8/4K3 w - - 33 60").ok()?;
+            let s = snap(&b);
+            *o = Some((b, s));
+        }
+        let (b, _) = o.as_mut()?;
+        let mv = b.generate_pseudo_legal_moves().into_iter().find(|m| m.is_attack())?;
+        b.make(mv);
+        Some(mv)
+    })
+}
+
+/// takes the outstanding move back; true if the other board is exactly what it was
+fn other_board_unmake(mv: Move) -> bool {
+    OTHER_BOARD.with(|o| {
+        let mut o = o.borrow_mut();
+        match o.as_mut() {
+            Some((b, s)) => {
+                b.unmake(mv);
+                let ok = snap(b) == *s;
+                if !ok {
+                    *o = None; // rebuilt next time
+                }
+                ok
+            }
+            None => true,
+        }
+    })
+}
+
 /// a fixed round of calls on two unrelated boards (one per colour to move)
 fn foreign_activity() {
     thread_local! {
@@ -645,7 +684,18 @@ fn c03(ctx: &BoardCtx, p: &Pos, fen: &str, b: &mut Bitboard) {
     for &mv in &pseudo {
         b.make(mv);
         let valid = b.is_valid();
+        // a board's undo information is its own: for a quarter of the moves another board on this
+        // thread makes a clock-resetting move while this one is outstanding, and takes it back only
+        // after this one was taken back (interleaved, not nested)
+        let interleave = mv.get_target_square() % 4 == 3;
+        let other_move = if interleave { other_board_make() } else { None };
         b.unmake(mv);
+        if let Some(om) = other_move {
+            if !other_board_unmake(om) {
+                ctx.viol("unmake:other_board_on_the_same_thread_not_restored".into(), fen, json!({"move": mv.to_uci_string()}));
+            }
+            *local.entry("unmakes_with_another_boards_move_outstanding").or_insert(0) += 1;
+        }
         if !valid {
             *local.entry("illegal_pseudo_moves_unmade").or_insert(0) += 1;
         }
